@@ -27,7 +27,33 @@ Scenarios ==
     mangleQuoted : BOOLEAN, cache : {"nil", "empty", "preset-foo", "false-bar"},
     layout : {"bundle", "split", "chain"} ]
 
-Export == \A s \in Scenarios : PrintT(<<"CASE", ToJson(s)>>)
+(***************************************************************************)
+(* Second family ("bulk"): the name generator against names that must not  *)
+(* be handed out.  n properties match the mangle pattern (three patterns:   *)
+(* suffix "_$", prefix "^_", and one that also matches every one-character  *)
+(* name), so the generator runs through its one-character names and into    *)
+(* the two-character ones.  One further property S carries a name that the  *)
+(* generator ITSELF produces for a build of this size (learned by a probe    *)
+(* build of the same files with an empty cache: scenario generation, not    *)
+(* oracle) and is kept by one of the mechanisms: a `false` entry of the     *)
+(* mangle cache, reserve-props, not matching the pattern (unquoted), or a   *)
+(* quoted use; S is used in the build or only named by the cache.  The      *)
+(* mangle cache given has all three entry kinds: absent, `false`, and a     *)
+(* string target that is again one of the generator's own names (early or   *)
+(* late in its sequence, for a property of the build or for one that the    *)
+(* build does not use).                                                     *)
+(***************************************************************************)
+BulkScenarios ==
+  [ bulk : {TRUE}, pattern : {"suffix", "prefix", "short"}, n : {6, 58, 66},
+    pin : {"none", "false", "reserved", "plain", "quoted"}, pinWhich : {"first", "last"}, pinUsed : BOOLEAN,
+    target : {"none", "early", "late", "unused"},
+    mangleQuoted : BOOLEAN, quotedUse : BOOLEAN, layout : {"bundle", "split", "chain"} ]
+\* a pin that is not used in the build is only meaningful as a cache entry; "none" has no which/used
+BulkOK(s) == /\ (s.pin = "none" => s.pinWhich = "first" /\ s.pinUsed)
+             /\ (s.pin \in {"reserved", "plain", "quoted"} => s.pinUsed)
+
+Export == /\ \A s \in Scenarios : PrintT(<<"CASE", ToJson(s)>>)
+          /\ \A s \in {b \in BulkScenarios : BulkOK(b)} : PrintT(<<"CASE", ToJson(s)>>)
 
 
 VARIABLE x
